@@ -420,6 +420,20 @@ func vfC19Gather(e *vfEnv, r *vfResult, idx int) { //nolint:cyclop
 		for j := range rules {
 			if vfC19EffType(rules[j].AsCandidateType) == CandidateTypeHost && len(locs) > 0 && rng.IntN(2) == 0 {
 				l := locs[rng.IntN(len(locs))]
+				// keep the rule unambiguous, as the generator does: the added external has a family the rule's Networks
+				// admit and, for a CIDR-scoped rule, the CIDR's family
+				famOK := len(rules[j].Networks) == 0
+				for _, nt := range rules[j].Networks {
+					if nt.IsIPv4() == vfIs4(l) {
+						famOK = true
+					}
+				}
+				if rules[j].CIDR != "" && vfIs4(strings.Split(rules[j].CIDR, "/")[0]) != vfIs4(l) {
+					famOK = false
+				}
+				if !famOK {
+					continue
+				}
 				ext := append([]string{}, rules[j].External...)
 				if rng.IntN(2) == 0 {
 					ext = append([]string{l}, ext...)
@@ -518,7 +532,13 @@ func vfC19Gather(e *vfEnv, r *vfResult, idx int) { //nolint:cyclop
 		if alt := vfC19Ref(rules, CandidateTypeHost, loc, iface, true); strings.Join(expect(alt), ",") == strings.Join(have, ",") && alt.idx >= 0 && alt.idx < want.idx && want.spec == 1 {
 			sig = "lookup-mismatch:cidr-only-catchall-loses-to-earlier-global-when-lookup-has-iface:gather"
 		}
-		r.violation(sig, fmt.Sprintf("host candidates published for local %s on %s: %v; the documented precedence (rule #%d, matched=%v, mode=%d, externals %v) gives %v", loc, iface, have, want.idx, want.matched, want.mode, want.ips, w),
+		mapperSays := ""
+		if ips, matched, mode, err := a.addressRewriteMapper.findExternalIPs(CandidateTypeHost, loc, iface); err == nil {
+			mapperSays = fmt.Sprintf("; the mapper itself answers matched=%v mode=%d ips=%v", matched, mode, ips)
+		} else {
+			mapperSays = fmt.Sprintf("; the mapper itself answers error %v", err)
+		}
+		r.violation(sig, fmt.Sprintf("host candidates published for local %s on %s: %v; the documented precedence (rule #%d, matched=%v, mode=%d, externals %v) gives %v%s", loc, iface, have, want.idx, want.matched, want.mode, want.ips, w, mapperSays),
 			map[string]any{"idx": idx, "rules": vfC19RuleJSON(rules), "local": loc, "iface": iface, "published": have, "expected": w})
 	}
 	r.count("c19_gather_runs", 1)
